@@ -163,6 +163,22 @@ ADDENDA8 = {
  "C13": " Also (rounds 8-9): same E6 normal forms as C15 (delegation, conditional effects, error provenance: an error of RequestFromOffer/SendAndRead that is replaced rather than passed through is reported).",
 }
 
+# round 10 and the third natural corpus (DESIGN §26-§27)
+ADDENDA10 = {
+ "C02": " Also (round 10, K12): after its first read no decoder method hands what it decoded to a callee that sees none of the input and writes it (de-duplicating, sorting, trimming decoded lists).",
+ "C03": " Also: the comparator handed to sort.Slice indexes the sorted slice with its own parameters (D14 sort contract, machine-checked); the ledger fact made_fields checks that every allocation of dhcpv4.DHCPv4 in the library makes its Options map.",
+ "C05": " Also (round 10, K14): same decoder post-processing rule as C02-K12.",
+ "C06": " Also (round 10): K9 decoder post-processing rule (shared C02-K12); K10 the messages the four top-level decoders return share no memory with the datagram (E3 retention), so a second encode cannot depend on the caller's buffer.",
+ "C09": " Also (round 10): K5 counts (*strings.Builder).Grow, (*bytes.Buffer).Grow and slices.Grow as allocations sized by their argument.",
+ "C16": " Also (round 10, K10): the DHCPv6 relay/reply helpers (New…From…, Decapsulate…, EncapsulateRelay, ExtractMAC, Get…, Is…) write no memory reachable from their arguments (E3).",
+ "C17": " Also (round 10, K12): between the decode and its return an accessor performs no store, copy or writing callee rooted at the decode target (no value-dependent editing of the decoded value). Accessors through a presence helper (lookup by code, decode into the decoder handed in, report success) are judged through it.",
+ "C18": " Also (round 10, K12): the frame of the deprecated client4.MakeRawUDPPacket field by field (ports, length, checksum constant 0 or computed, ipv4.Header literal, header ++ UDP ++ payload), and fold completeness over nclient4 and client4: a value (x>>16)+(x&0xffff) is narrowed to 16 bits only after it is folded again (a single fold drops its own carry).",
+ "C19": " Also (round 10): K6 every library caller of the label decoder hands the decoded set on as decoded; K7 the wire-schema rows of the three DHCPv6 options that carry names.",
+ "C20": " Also (round 10): an append whose first operand reaches it through the φ of an accumulating loop from a shortened re-slice x[:k] (the in-place filter idiom) is a write to x's elements.",
+ "C10": " Also: when the check-and-register step of send lives in an unexported helper, K3 is evaluated on that shape (helper: keyed lookup/store, store only when absent, one critical section, lock released on every exit, boolean verdict separating the colliding from the registering returns; send: id passed is msg.TransactionID, refusal neither transmits nor returns nil, the call dominates WriteTo).",
+ "C13": " Also: IsMessageType is decided by truth table when written loop-free (type == t || slices.Contains(tt, type)); E6 inlines result-returning helpers of the package (one caller, one success return), so a shared request/ack step compares equal to the inlined form.",
+}
+
 NA_REASON = {}
 
 def main():
@@ -173,7 +189,7 @@ def main():
         pid = p["id"]
         if pid in CLAIMED:
             tech, text, note, ref = CLAIMED[pid]
-            text = text + ADDENDA.get(pid, "") + ADDENDA7.get(pid, "") + ADDENDA8.get(pid, "")
+            text = text + ADDENDA.get(pid, "") + ADDENDA7.get(pid, "") + ADDENDA8.get(pid, "") + ADDENDA10.get(pid, "")
             checks.append({
                 "property_id": pid,
                 "quick_cmd": f"./check.sh {pid} quick",
